@@ -37,9 +37,9 @@ class AigerWriteUnit(Unit):
     structs = [("Writer", ["writer", "codec"])]
     skip = {
         "new": "`unsafe` pointer cast of `&mut DeferredWriter` to `&mut Self` (`#[repr(transparent)]`)",
-        "write_aig": "whole-file driver over `Aig<L>` (vectors, nested loops); modelled by `Aiger.writeAig` as the "
+        "write_aig": "translated by the unit `aigerwritedoc`, not here: whole-file driver over `Aig<L>` (vectors, nested loops); modelled by `Aiger.writeAig` as the "
                      "concatenation of the pieces tied here",
-        "write_ordered_aig": "whole-file driver over `OrderedAig<L>`; modelled by `Aiger.writeOrderedAigAscii`",
+        "write_ordered_aig": "translated by the units `aigerwritedoc` / `aigerbinwritedoc`, not here: whole-file driver over `OrderedAig<L>`; modelled by `Aiger.writeOrderedAigAscii`",
     }
     fuel = {"write_header": "fields.length + 1"}
     gate_ty = "AndGate<L>"
